@@ -58,6 +58,13 @@ func preStates(c *vk.Ctx) []pre {
 		{"float16", []hx.Op{mk("euclidean", "float16"),
 			{K: hx.VAdd, I: "i", ID: "a", V: v(1, 0.5), M: map[string]any{"s": "x"}},
 			{K: hx.VAdd, I: "i", ID: "b", V: v(0, 1)}}},
+		{"graph-only-node", []hx.Op{mk("euclidean", "float32"),
+			{K: hx.VAdd, I: "i", ID: "a", V: v(1, 0), M: map[string]any{"s": "x"}},
+			{K: hx.VAdd, I: "i", ID: "b", V: v(0, 1)},
+			{K: hx.VLink, I: "i", ID: "a", ID2: "ghost", S: "r", W: 1, M: map[string]any{"p": 1.0}},
+			{K: hx.VLink, I: "i", ID: "ghost", ID2: "b", S: "q", S2: "inv", W: 1},
+			{K: hx.VDel, I: "i", ID: "b"},
+			{K: hx.VLink, I: "i", ID: "a", ID2: "b", S: "r", W: 2}}},
 		{"with-edges-mem", []hx.Op{{K: hx.VCreate, I: "i", Cfg: &hx.IdxCfg{Metric: "euclidean", Prec: "float32", M: 2, EfC: 4, Mem: "plain", AutoField: "chat", AutoRel: "in_chat"}},
 			{K: hx.VAdd, I: "i", ID: "a", V: v(1, 0), M: map[string]any{"chat": "c1"}},
 			{K: hx.VAdd, I: "i", ID: "b", V: v(0, 1)},
@@ -105,6 +112,8 @@ func failing() []hx.Op {
 		{K: hx.VSetMeta, I: "nope", ID: "a", M: map[string]any{"s": "q"}},
 		{K: hx.VReinforce, I: "nope", IDs: []string{"a"}},
 		{K: hx.VDel, I: "i", ID: "ghost"},
+		{K: hx.VDel, I: "i", ID: "b"},
+		{K: hx.VSetMeta, I: "i", ID: "b", M: map[string]any{"s": "q"}},
 		{K: hx.VSetMeta, I: "i", ID: "ghost", M: map[string]any{"s": "q"}},
 		{K: hx.VEvolve, I: "i", ID: "ghost", V: v(1, 1), S2: "r"},
 		{K: hx.VAdd, I: "i", ID: "n1", V: v(1, 2, 3)},
